@@ -473,6 +473,10 @@ impl EventBuffer {
             if let Some(record) = self.events.remove_first(T::is_type) {
                 T::decrement_type(&mut self.total.types);
                 self.total.classes.decrement(record.class);
+                if record.state.get() == EventState::Written {
+                    // the discarded event is part of a response that still awaits its confirm
+                    self.written.decrement(&record);
+                }
                 self.is_overflown = true;
                 Err(InsertError::Overflow {
                     created: id,
